@@ -190,12 +190,20 @@ def run_impl(script_path, payload, timeout=900, extra_env=None, cwd=None):
         p = subprocess.run(['timeout', str(timeout), PY, script_path, inp, outp], env=impl_env(extra_env),
                            cwd=cwd or d, stdout=subprocess.PIPE, stderr=subprocess.STDOUT, text=True)
         if p.returncode != 0 or not os.path.exists(outp):
-            raise ImplCrash(p.stdout[-3000:])
+            e = ImplCrash(p.stdout[-3000:])
+            e.script, e.payload = script_path, payload
+            raise e
         return json.load(open(outp))
 
 
 class ImplCrash(Exception):
-    pass
+    script, payload = None, None
+
+    def inside_implementation(self):
+        """True when the innermost frame of the driver's traceback is a file of the bisturi package itself: the exception was
+        raised by the implementation (e.g. while a class was being declared), not by the driver stumbling over a renamed API."""
+        files = re.findall(r'File "([^"]+)", line \d+', str(self))
+        return bool(files) and '/bisturi/' in files[-1] and '/harness/' not in files[-1]
 
 
 def run_impl_parallel(script_path, payloads, **kw):
